@@ -635,10 +635,21 @@ class AbstractConstraintSet(AbstractConstraint):
         return iter(self._values)
 
     def __add__(self, value):
-        return self.__class__(*(self._values + (value,)))
+        return self._derive(self._values + (value,))
 
     def __radd__(self, value):
-        return self.__class__(*((value,) + self._values))
+        return self._derive((value,) + self._values)
+
+    def _derive(self, values):
+        derived = self.__class__(*values)
+
+        # the derived set stems from this one: keep that on record so that
+        # a type constrained by `self` recognises its own subtypes
+        if self._values:
+            derived._valueMap.add(self)
+            derived._valueMap.update(self._valueMap)
+
+        return derived
 
     def __len__(self):
         return len(self._values)
